@@ -71,7 +71,18 @@ def make_job(method, noise, opts, stypes=None):
             ok, why = X.arr_equal(XT(y1.a[0:1]), XT(y1b.a[0:1]))
             rep.add(f'{tag}/row0-unaffected-by-row1', 'post', 'discharged' if ok else 'refuted', 'poly-normal-form', model=None if ok else {'diff': why},
                     statement='changing row 1 of y0, dW, U, A leaves row 0 of y1 identical')
-            # (b) permutation equivariance
+            # (a') the other direction: change row 0, row 1 must not move
+            y0c = swap_rows(replace_row1(swap_rows(S.y0), 'yz'))
+            bm_c = H.BMStub((B, m), S.levy, lambda ta, tb: tuple(None if v is None else swap_rows(replace_row1(swap_rows(v), nm))
+                                                                  for v, nm in ((S.dW, 'wz'), (S.U, 'uz'), (S.A, 'Az'))))
+            _, y1c, _ = X.run_step(S, method, bm=bm_c, y0=y0c, options=opts)
+            ok, why = X.arr_equal(XT(y1.a[1:2]), XT(y1c.a[1:2]))
+            rep.add(f'{tag}/row1-unaffected-by-row0', 'post', 'discharged' if ok else 'refuted', 'poly-normal-form', model=None if ok else {'diff': why},
+                    statement='changing row 0 of y0, dW, U, A leaves row 1 of y1 identical')
+            # (b) permutation equivariance -- for user functions that treat all rows alike (T7); a diffusion with a per-row value is
+            # excluded here because it is not itself permutation invariant
+            S = X.setup(E, noise, st, B, d, m, X.levy_for(method), eta_limit=2, per_row=False)
+            solver, y1, ex1 = X.run_step(S, method, options=opts)
             bm_p = H.BMStub((B, m), S.levy, lambda ta, tb: (swap_rows(S.dW), swap_rows(S.U), swap_rows(S.A)))
             _, y1p, _ = X.run_step(S, method, bm=bm_p, y0=swap_rows(S.y0), options=opts)
             ok, why = X.arr_equal(swap_rows(y1), y1p)
@@ -101,6 +112,8 @@ def jobs(tier):
     out = [make_job(m, n, o) for (m, n, o) in CONFIGS]
     out.append(Job('logqp', job_logqp))
     out.append(Job('noise-shape', C04.job_noise_shape))
+    from props import agg_jobs as AJ
+    out.append(AJ.job_aggregation('C20'))       # the Levy-area cross terms of a multi-node query are formed per batch element
     return out
 
 
